@@ -99,19 +99,8 @@ func (e *Engine) assumeClause(st *State, env *Env, x *Expr, src, callee string, 
 // function's `props` list). Such clauses of a callee count for every property whose check verifies the callee as part
 // of its cone; clause-level tags mark clauses that only one property claims (e.g. a known finding's clause).
 func untaggedClause(w *World, g *Group) bool {
-	for k, fc := range w.Contract {
-		if shortKey(k) != g.Func {
-			continue
-		}
-		if len(fc.Props) != len(g.Props) {
-			return false
-		}
-		for i := range fc.Props {
-			if fc.Props[i] != g.Props[i] {
-				return false
-			}
-		}
-		return true
+	if g.Failing != nil {
+		return !g.Failing.Tagged
 	}
 	return false
 }
